@@ -32,10 +32,12 @@ def project_loaded(ret):
 BAD = {"ok": False, "common": [], "ents": [], "inttypes": False, "u32": False}
 
 
-def load_bytes(IndxIO, data, path):
+def load_bytes(IndxIO, data, path, mode="rb"):
+    """load what is on disk through a handle of the given mode: read-only, or opened for update the way a temporary
+    file is (a loader may map the file differently then - and a mapping opened for update can silently EXTEND a short file)"""
     with open(path, "wb") as f:
         f.write(data)
-    with open(path, "rb") as f:
+    with open(path, mode) as f:
         return IndxIO.load(f)
 
 
@@ -89,7 +91,7 @@ def file_event(IndxIO, tid, arity, common, ents, wd, index=None, cuts=True, uniq
     data = open(path, "rb").read()
     ev["bytes"] = list(data)
     try:
-        with open(path, "rb") as f:
+        with open(path, "r+b" if tid % 4 == 1 else "rb") as f:
             ret = IndxIO.load(f)
         ev["loaded"] = project_loaded(ret)
         if index is not None:
@@ -106,7 +108,7 @@ def file_event(IndxIO, tid, arity, common, ents, wd, index=None, cuts=True, uniq
     if cuts:
         for k in range(len(data)):
             try:
-                load_bytes(IndxIO, data[:k], path)
+                load_bytes(IndxIO, data[:k], path, "r+b" if (k + tid) % 2 else "rb")
                 ev["accepted"].append(k)
             except Exception:
                 pass
